@@ -370,19 +370,19 @@ class Sim:
         r = rng.random()
         if leaves and r < cfg["p_leaf_op"]:
             o = rng.choice(leaves)
-            return pathops.gen_fit_op(rng, o, len(w.objs[o]._position), forms=cfg["forms"])
+            return pathops.gen_fit_op(rng, o, len(w.objs[o]._position), forms=cfg["forms"], alias=cfg.get("alias", True))
         if inner and rng.random() < cfg["p_inner_op"]:
             o = rng.choice(inner)
             N = len(w.objs[o]._position)
             if N == 1 and rng.random() < 0.1:
                 return {"op": "reset_path", "o": o}
-            return pathops.gen_fit_op(rng, o, N, forms=cfg["forms"])
+            return pathops.gen_fit_op(rng, o, N, forms=cfg["forms"], alias=cfg.get("alias", True))
         o = rng.choice(roots)
         N = len(w.objs[o]._position)
         kinds = ["move", "rotate", "rotate", "setter"] + (["reset"] if rng.random() < 0.1 else [])
         if N > 12:
             kinds = ["setter", "reset"]
-        return pathops.gen_path_op(rng, o, N, kinds=kinds, forms=cfg["forms"], wild=True)
+        return pathops.gen_path_op(rng, o, N, kinds=kinds, forms=cfg["forms"], wild=True, alias=cfg.get("alias", True))
 
     def simplify_op(self, op):
         yield from simplify_path_op(op)
